@@ -29,6 +29,7 @@ def _write_evidence(check, tier, seed, tally, wall, violations, extra_cov, known
         'samples': tally.samples[:8],
         'classes': dict(sorted(tally.labels.items())),
         'origins': dict(sorted(tally.origins.items())),
+        'cases_by_origin': dict(sorted(tally.case_counts.items())),
         'buckets': {sig: {'count': b['count'], 'clause': b['clause'], 'detail': b['detail'][:300]}
                     for sig, b in sorted(tally.buckets.items())},
         'known_findings_seen': known_seen,
@@ -98,7 +99,7 @@ def main(argv=None):
     t0 = time.monotonic()
     tally = core.Tally()
     # tier 0: committed regression corpus (known findings, fixed defects, seeded escapes)
-    for path in core.corpus_files(prop_id):
+    for path in ([] if os.environ.get('VERIF_NO_CORPUS') else core.corpus_files(prop_id)):
         _data, case = core.read_replay(path)
         outcome = check.run_case(case)
         tally.add(case, outcome, 'corpus')
@@ -107,9 +108,9 @@ def main(argv=None):
     tally.merge(explored)
 
     # generator health: class floors
-    gen_n = tally.origins.get('generated', 0)
+    gen_n = tally.case_counts.get('generated', 0)
     for label, floor in getattr(check, 'FLOORS', {}).items():
-        frac = tally.labels.get(label, 0) / max(1, tally.evaluations)
+        frac = tally.labels.get(label, 0) / max(1, gen_n)
         if gen_n and frac < floor and not tally.budget_exhausted:
             raise core.HarnessError(
                 f'generator floor not met: class {label!r} is {frac:.4f} < {floor}')
